@@ -1,5 +1,6 @@
 import Driver.Proto
 import MillerModel.Spec.Select
+import MillerModel.Model.Verbs.Restructure
 namespace Driver.Verbs
 open Miller Miller.Verbs
 
@@ -77,6 +78,47 @@ def evalVerb (argv : List String) : Option ((List Rec → List Rec) × Option (L
     | [("--which-are", fs)] => pure ((havingFields .whichAre (fieldsOf fs)).run, none)
     | [("--at-most", fs)] => pure ((havingFields .atMost (fieldsOf fs)).run, none)
     | _ => none
+  | "cut" :: rest => do
+    let o ← parseOpts ["-f"] rest {}
+    let fs ← (o.get "-f").map fieldsOf
+    if o.flags.any (fun f => f != "-o" && f != "-x") then none
+    if o.has "-x" then pure (List.map (cutExclude fs), none)
+    else if o.has "-o" then pure (List.map (cutIncludeArgOrder fs), none)
+    else pure (List.map (cutInclude fs), none)
+  | "reorder" :: rest => do
+    let o ← parseOpts ["-f"] rest {}
+    let fs ← (o.get "-f").map fieldsOf
+    if o.flags.any (fun f => f != "-e") then none
+    if o.has "-e" then pure (List.map (reorderToEnd fs), none) else pure (List.map (reorderToStart fs), none)
+  | ["rename", names] =>
+    let ns := fieldsOf names
+    if ns.length % 2 != 0 then none else some (List.map (renameVerb ns), none)
+  | ["label", names] =>
+    let ns := fieldsOf names
+    if ns.eraseDups.length != ns.length then none else some (List.map (fun r => label r ns), none)
+  | ["regularize"] => some (regularize.run, none)
+  | ["sort-within-records"] => some (List.map (sortWithinRecords false), none)
+  | ["sort-within-records", "-r"] => some (List.map (sortWithinRecords false), none)  -- -r = recurse into submaps
+  | "unsparsify" :: rest => do
+    let o ← parseOpts ["--fill-with", "-f"] rest {}
+    if !o.flags.isEmpty then none
+    let fill := Bytes.ofString ((o.get "--fill-with").getD "")
+    let fs := match (o.vals.filter (·.1 == "-f")).getLast? with | some p => fieldsOf p.2 | none => []  -- the last -f wins
+    if fs.isEmpty then pure ((unsparsify fill).run, none) else pure (List.map (unsparsifyStreaming fs fill), none)
+  | "sparsify" :: rest => do
+    let o ← parseOpts ["-s", "-f"] rest {}
+    if !o.flags.isEmpty then none
+    pure (List.map (sparsify (Bytes.ofString ((o.get "-s").getD "")) ((o.get "-f").map fieldsOf)), none)
+  | "fill-empty" :: rest => do
+    let o ← parseOpts ["-v"] rest {}
+    if !o.flags.isEmpty then none
+    pure (List.map (fillEmpty (Bytes.ofString ((o.get "-v").getD "N/A"))), none)
+  | "template" :: rest => do
+    let o ← parseOpts ["-f", "--fill-with"] rest {}
+    if !o.flags.isEmpty then none
+    let fs ← (o.get "-f").map fieldsOf
+    pure (List.map (template fs (Bytes.ofString ((o.get "--fill-with").getD ""))), none)
+  | ["altkv"] => some (List.map altkv, none)
   | _ => none
 
 def splitThen : List String → List (List String)
